@@ -259,6 +259,7 @@ func (m *Morass) Finalise() error {
 			m.fast = true
 			sort.Sort(m.chunk)
 		} else {
+			m.fast = false
 			if len(m.chunk) > 0 {
 				m.writable <- m.chunk
 				m.chunk = nil
